@@ -4,7 +4,7 @@
    [vm_compute. reflexivity.] and re-checked by the kernel at Qed. *)
 From Coq Require Import List ZArith QArith Bool Arith Lia.
 From GV Require Import Lib.Tree Lib.Graph16 Lib.PolyRefl16 Model.QCount Model.CliqueEq
-                       Proofs.QCountP Proofs.CliqueEqP.
+                       Proofs.QCountP Proofs.CliqueEqP Proofs.CliqueGen.
 Import ListNotations.
 
 (* n = 7 (2^21 edge subsets): the recursion against the brute-force count.  QQ(7, .) is not included:
@@ -25,6 +25,14 @@ Proof.
   - destruct (Q_count_upto_6 n k ltac:(lia) Hk) as [H1 H2]. congruence.
 Qed.
 Print Assumptions C16_Q_count_upto_7.
+
+(* growth: tau = 7 of the clique identity from the count for n <= 7 and the general regrouping theorem
+   (the polynomial-normal-form route would need all 2^21 edge subsets of K_7 as polynomials) *)
+Theorem C16_clique_identity_upto_7 : forall tau, (2 <= tau <= 7)%nat ->
+  forall (phi : Q) (Hs : list Q), length Hs = (tau - 1)%nat ->
+    (clique_val tau phi Hs == exact_val (seq 0 tau) (all_edges tau) 0 phi (fun v => nth (v - 1) Hs 0))%Q.
+Proof. exact (clique_identity_from_Q_count 7 C16_Q_count_upto_7). Qed.
+Print Assumptions C16_clique_identity_upto_7.
 
 Lemma cross_grid_20 : cross_grid 20 = true.
 Proof. vm_compute. reflexivity. Qed.
